@@ -17,10 +17,10 @@ LEVEL = "exploration"
 RULE = (
     "Hypothesis-generated histories run against the real FactoryPool.run() under trio's virtual clock: 0-4 initial children, a "
     "factory producing children of varying initial demand (ints / dyadics > 0), 1-40 ops {write demand D, set a child's supply / "
-    "utilisation, a child sets its own demand to 0, let one adjustment happen} applied strictly between adjustment instants; plus "
+    "utilisation, a child sets its own demand to 0, make total supply exactly equal to the request (by a child's supply or by the request), let one adjustment happen} applied strictly between adjustment instants; plus "
     "an exhaustive enumeration of all histories up to depth 4 over a small alphabet. After every adjustment the invariants of the "
     "statement are evaluated from the children (the harness holds strong references to every child ever seen): coverage and "
-    "minimality on growth, release-only-if-covered and no-releasable-child-kept on shrink, released children stay at demand 0, "
+    "minimality on growth, growth whenever supply does not exceed the request and the active demand does not cover it, release-only-if-covered and no-releasable-child-kept on shrink, released children stay at demand 0, "
     "children come only from the factory, aggregates recomputed. Non-trivial = a history with >= 1 grow and >= 1 shrink, or a "
     "self-disabled child, or a shrink that had to skip a child; distinct = canonical JSON of the history."
 )
@@ -43,6 +43,9 @@ op = st.one_of(
     st.tuples(st.just("sup"), st.integers(0, 30), num_nn),
     st.tuples(st.just("util"), st.integers(0, 30), dyadic(0, 1, 3)),
     st.tuples(st.just("off"), st.integers(0, 30)),
+    # boundary states by construction: total supply exactly equal to the requested demand at the next adjustment
+    st.tuples(st.just("supfit"), st.integers(0, 30)),
+    st.tuples(st.just("Dfit")),
     st.tuples(st.just("adj")),
     st.tuples(st.just("adj")),
 )
@@ -76,7 +79,7 @@ def run_case(spec) -> Result:
     except Exception as e:
         res.fail("ctor", f"{type(e).__name__}: {e}")
         return res
-    stats = {"grow": 0, "shrink": 0, "reaped": 0, "skipped": 0, "self_off": 0}
+    stats = {"grow": 0, "shrink": 0, "reaped": 0, "skipped": 0, "self_off": 0, "fit": 0, "equal": 0}
 
     def released(c):
         return any(w == 0 for w in c.writes)
@@ -110,11 +113,19 @@ def run_case(spec) -> Result:
                 pool.demand = o[1]
                 if pool.demand != o[1]:
                     res.fail("demand-readback", f"{tag}: wrote {o[1]!r}, reads {pool.demand!r}")
-            elif o[0] in ("sup", "util", "off"):
+            elif o[0] == "Dfit":
+                pool.demand = sum(c.supply for c in known)
+                stats["fit"] += 1
+            elif o[0] in ("sup", "util", "off", "supfit"):
                 if not known:
                     continue
                 c = known[o[1] % len(known)]
-                if o[0] == "sup":
+                if o[0] == "supfit":
+                    rest = sum(x.supply for x in known if x is not c)
+                    if pool.demand >= rest:
+                        c.supply = pool.demand - rest
+                        stats["fit"] += 1
+                elif o[0] == "sup":
                     c.supply = o[2]  # also released children may still (or again) report supply while they drain
                 elif o[0] == "util":
                     c.utilisation = c.allocation = o[2]
@@ -145,6 +156,12 @@ def run_case(spec) -> Result:
                 for c in active:
                     if c.demand <= 0:
                         res.fail("child-without-demand-kept", f"{tag}: child {c!r} has demand {c.demand!r} but was not released")
+                if S == D:
+                    stats["equal"] += 1
+                if S <= D and total < D:
+                    # nothing is in excess (supply does not exceed the request), yet the active demand does not cover it
+                    res.fail("grow-missing", f"{tag}: supply {S!r} does not exceed the request {D!r} and the active children's demand {total!r} does not cover it, "
+                                             f"but {'only ' + str(len(spawned)) if spawned else 'no'} children were spawned")
                 if spawned:
                     stats["grow"] += 1
                     last = spawned[-1]
@@ -190,12 +207,13 @@ def run_case(spec) -> Result:
     except BaseException as e:
         res.fail("run-raises", f"{type(e).__name__}: {e!r}")
         return res
-    res.cls("grow:%d" % min(stats["grow"], 5), "shrink:%d" % min(stats["shrink"], 5), "self-off:%d" % min(stats["self_off"], 3))
+    res.cls("grow:%d" % min(stats["grow"], 5), "shrink:%d" % min(stats["shrink"], 5), "self-off:%d" % min(stats["self_off"], 3),
+            "adjustments-at-supply==demand:%s" % ("0" if not stats["equal"] else "1" if stats["equal"] == 1 else ">1"))
     res.nontrivial = (stats["grow"] >= 1 and stats["shrink"] >= 1) or stats["self_off"] > 0 or stats["skipped"] > 0
     return res
 
 
-ALPHABET = [["D", 0], ["D", 3], ["D", 7], ["sup", 0, 5], ["sup", 1, 9], ["off", 0], ["off", 1], ["adj"]]
+ALPHABET = [["D", 0], ["D", 3], ["D", 7], ["sup", 0, 5], ["sup", 1, 9], ["off", 0], ["off", 1], ["supfit", 0], ["Dfit"], ["adj"]]
 
 
 def enum_histories(shard, nshards):
